@@ -86,6 +86,8 @@ def run_shard(modname, tier, seed, n, shard, nshards, use_model):
         p = mod.gen(rng)
         kind = ("random", "sticky", "pct")[i % 3]
         one(mod, runner, stats, p, kind, rng.randrange(1 << 30), "seeded:%d" % i, known_patterns, use_model)
+    if shard == 0 and hasattr(mod, "extra"):
+        mod.extra(stats, tier, seed)
     if runner:
         runner.close()
     s = stats.summary()
